@@ -79,6 +79,16 @@ def gen_cases(rng, tier):
         cuts = E.W.cuts_str(E.W.random_cuts(rng, len(stream))) if rng.random() < 0.6 else "-"
         cases.append(["note %s" % ("maycomplete" if may_complete else "noauth"),
                       "new A " + E.cfg_str(c), "start A", "bytes A 0 %s %s" % (E.hexspec(stream), cuts), "state A"])
+    # a peer that claims the SERVER role towards a listener (as-server = 1) and plays the server's half of PLAIN
+    for i in range(max(20, n // 40)):
+        c = E.gen_cfg(rng, mech="PLAIN")
+        c["role"] = "s"
+        pieces = [E.greeting_v3("PLAIN", as_server=True), E.welcome(), E.ready(rng.choice(E.TYPES)), E.frame(b"secret-payload")]
+        if rng.random() < 0.3:
+            pieces.insert(1, E.hello(b"x", b"y"))
+        stream = b"".join(pieces)
+        cuts = E.W.cuts_str(E.W.random_cuts(rng, len(stream))) if rng.random() < 0.5 else "-"
+        cases.append(["note noauth", "new A " + E.cfg_str(c), "start A", "bytes A 0 %s %s" % (E.hexspec(stream), cuts), "state A"])
     return cases
 
 
@@ -97,6 +107,21 @@ def oracle(case, impl):
     if "phase=data" in impl[4]:
         return "key=bypass engine reached the data phase without authentication"
     return None
+
+
+def leak_oracle(case, impl):
+    """a PLAIN SERVER never sends its configured credentials to a peer (it only ever checks the peer's)"""
+    for op, out in zip(case, impl):
+        if op.startswith("new A ") and "role=s" not in op:
+            return None
+    for out in impl:
+        if "S(" in out and "0548454c4c4f" in out:
+            return "key=credential-leak a PLAIN server sent a HELLO (which carries its own user name and password) to the peer: " + out[:200]
+    return None
+
+
+def both_oracles(case, impl):
+    return oracle(case, impl) or leak_oracle(case, impl)
 
 
 def gen_stack_cases(rng, tier):
@@ -155,11 +180,11 @@ def nontrivial(case, impl):
 
 SPEC = {
     "components": [
-        {"comp": "engine", "gen": gen_cases, "nontrivial": nontrivial, "oracle": oracle, "dist": lambda cs: {"cases": len(cs)}},
+        {"comp": "engine", "gen": gen_cases, "nontrivial": nontrivial, "oracle": both_oracles, "dist": lambda cs: {"cases": len(cs)}},
         {"comp": "stack", "gen": gen_stack_cases, "nontrivial": nontrivial, "oracle": stack_oracle, "label": "stack-attacker",
          "dist": lambda cs: {"cases": len(cs)}},
     ],
-    "search": lambda rng, tier: [("engine", gen_cases(rng, tier), oracle)],
+    "search": lambda rng, tier: [("engine", gen_cases(rng, tier), both_oracles)],
     "rule": "attacker grammar of the property against real engines configured with PLAIN (both roles) / CURVE / NOISE: greeting "
             "revision in {1,2,3,4,0x7f}, mechanism field in {NULL,PLAIN,CURVE,NOISE_XX,GSSAPI,empty}, as-server bit, then up to 5 of "
             "{HELLO(wrong creds; 15% of PLAIN-server cases know the creds as positive control), READY, WELCOME, INITIATE, ERROR, unknown "
